@@ -182,6 +182,11 @@ MDerive(m, base, d, kind) ==
 MValue(k) == /\ "value" \in Acts /\ Live(k) /\ (Sym(key[k].kind) \/ key[k].kind = "rsa") /\ out' = Out("OK", k, 0, key[k].v, 0)
              /\ UNCHANGED <<key, blob, nk, nb, tbl>>
 
+\* the same after C_Finalize / C_Initialize (all keys are token objects: they are found again, through new handles, with
+\* the same value and the same attributes - whatever the storage backend has done with them in between)
+MValueR(k) == /\ "valuer" \in Acts /\ Live(k) /\ (Sym(key[k].kind) \/ key[k].kind = "rsa") /\ out' = Out("OK", k, 0, key[k].v, 0)
+              /\ UNCHANGED <<key, blob, nk, nb, tbl>>
+
 \* ---- deterministic operations: the output is a function of (mode, key value, data) - not of the chunking
 ModeKeyOK(mode, kind) ==
     CASE mode \in {"aes-ecb", "aes-cbc", "aes-cbcpad", "aes-ctr", "aes-gcm", "aes-cmac", "aes-gcm2", "aes-ctr64"} -> IsAes(kind)
@@ -229,6 +234,7 @@ Next == \/ \E kind \in AllKinds, i \in 1 .. 2 : MImport(kind, i)
         \/ \E m \in AllWrap, w \in KS, b \in BS : MUnwrapAs(m, w, b)
         \/ \E m \in AllDer, base \in KS, d \in 1 .. 3, kind \in AllKinds : MDerive(m, base, d, kind)
         \/ \E k \in KS : MValue(k)
+        \/ \E k \in KS : MValueR(k)
         \/ \E mode \in AllModes, k \in KS, d \in 0 .. 4, ch \in 0 .. 5 : MCrypt(mode, k, d, ch)
         \/ \E mode \in {"sha1", "sha256", "sha512", "md5"}, d \in 0 .. 4, ch \in 0 .. 5 : MDigest(mode, d, ch)
         \/ \E mode \in AllR, k \in KS, d \in 0 .. 4 : MRCrypt(mode, k, d)
